@@ -45,11 +45,17 @@ const (
 	stFuncError    = 12
 	stInt64Range   = 13
 	stExpContract  = 14
-	stOther        = 99
+	stDriver       = 98 // the driver itself failed (bad case): never a legitimate observation
+	stOther        = 99 // the call failed loudly with a text this driver does not know: a generic failure
 )
 
+// classify maps the text of a panic / error to a fine failure kind.  The kind is a diagnostic: a failure whose text is not
+// recognised is reported as the generic stOther, which the comparison with the model and the oracle accept for any predicted
+// failure kind (the property only requires that such calls fail loudly, not what the message says).
 func classify(msg string) int {
 	switch {
+	case strings.Contains(msg, "c13drv: bad") || strings.Contains(msg, "c13drv: unknown"):
+		return stDriver
 	case strings.Contains(msg, "cannot take square root of negative number"):
 		return stNegSqrt
 	case strings.Contains(msg, "negative exponent"):
@@ -229,7 +235,7 @@ func run(c tcase) (o obs) {
 	case "bd_power":
 		return okv(rawB(bdec(a[0]).PowerInteger(bi(a[1]).Uint64())))
 	}
-	return obs{St: stOther, Msg: "c13drv: unknown op " + c.Op}
+	return obs{St: stDriver, Msg: "c13drv: unknown op " + c.Op}
 }
 
 func main() {
